@@ -234,9 +234,9 @@ PROPS["C13"] = {
 PROPS["C13"]["level_text"] = (
     "Theorems (Stef/Props/C13.lean): Deserialize(Serialize w) = w for every list of at most 1024 counts below 2^64 and refusal "
     "above the limit; NewWireSchema order = generated Init consumption order for ALL schemas, recursive ones included (wire_order, "
-    "wire_order_parsed); print->parse: for every schema returned by parse that keeps at least one struct, parse(prettyPrint s) = ok "
-    "(s sorted by name), hence equivalent with the same wire schema for every root (print_parse, print_parse_safe); the full "
-    "statement is refuted only by the recorded finding (schema without a root prints as `package a`); tied to go/pkg/schema and the "
+    "wire_order_parsed); print->parse: for EVERY schema returned by parse, parse(prettyPrint s) = ok "
+    "(s sorted by name), hence equivalent with the same wire schema for every root (print_parse, print_parse_safe, "
+    "print_parse_empty; no exclusion since the parser accepts the printed form of the empty schema, repo ae9fe8f); tied to go/pkg/schema and the "
     "generated otelstef code by op-for-op differential runs.")
 
 PROPS["C17"] = {
